@@ -157,6 +157,9 @@ func (x *Exec) verify() (res verifyResult) {
 		v := env.eval(mustParse(m.Text))
 		s.assume(env.invOf(v, ""))
 	}
+	if len(x.spec.Refines) > 0 {
+		x.checkRefinesPre(s)
+	}
 	env.assumeHeld = true
 	for _, c := range x.spec.Requires {
 		s.assume(env.evalBool(c.Expr))
@@ -731,6 +734,11 @@ func (x *Exec) checkPost(s *State, res []Val) {
 	if x.spec.Implements != "" {
 		x.checkImplements(s, res)
 	}
+	for _, r := range x.spec.Refines {
+		if x.prop == "" || hasProp(r.Props, x.prop) {
+			x.checkRefines(s, res, r)
+		}
+	}
 	for _, m := range x.spec.Maintains {
 		v := env.eval(mustParse(m.Text))
 		ts := x.typeSpecOf(v.Typ)
@@ -972,6 +980,128 @@ func (x *Exec) checkImplements(s *State, res []Val) {
 		}
 		props := c.Props
 		x.emit(s, "implements", shortName(fc.Name)+"."+c.Label, props, env.evalBool(c.Expr), c)
+	}
+}
+
+// substGhost replaces every `this.<g>` (g a model field named in the abstraction map) by the
+// abstraction expression; inside old(...) the replacement is evaluated in the pre-state like
+// everything else.
+func substGhost(e *SExpr, m map[string]*SExpr) *SExpr {
+	if e == nil {
+		return nil
+	}
+	if e.Op == "sel" && len(e.Args) == 1 && e.Args[0].Op == "id" && e.Args[0].Tok == "this" {
+		if r, ok := m[e.Tok]; ok {
+			return r
+		}
+	}
+	n := *e
+	n.Args = make([]*SExpr, len(e.Args))
+	for i, a := range e.Args {
+		n.Args[i] = substGhost(a, m)
+	}
+	return &n
+}
+
+// refineVars binds the interface contract's parameter and result names to this method's values.
+func (x *Exec) refineVars(s *State, fc *FuncSpec, res []Val) map[string]Val {
+	vars := map[string]Val{}
+	if res != nil {
+		vars = x.resultVars(res)
+		if m, ok := x.P.ifaceMethods[fc.Name]; ok {
+			rs := m.Type().(*types.Signature).Results()
+			for i := 0; i < rs.Len() && i < len(res); i++ {
+				if n := rs.At(i).Name(); n != "" && n != "_" {
+					vars[n] = res[i]
+				}
+			}
+		}
+	}
+	real := x.fn.Params
+	off := 0
+	if x.fn.Signature.Recv() != nil {
+		off = 1
+	}
+	for i, n := range fc.Params {
+		if off+i < len(real) {
+			p := real[off+i]
+			if v, ok := x.params[p.Name()]; ok {
+				vars[n] = v
+			}
+		}
+	}
+	return vars
+}
+
+// checkRefines: every postcondition of the interface method's contract, read through the
+// abstraction map, holds at this return (DESIGN 0.7). Frame part: the interface contract's
+// callers assume nothing outside its assigns changes, so everything this method assigns must be
+// state private to the receiver's representation (checked syntactically: rooted at the receiver).
+func (x *Exec) checkRefines(s *State, res []Val, r *Refine) {
+	fc, ok := x.P.specs.Funcs[r.Target]
+	if !ok {
+		specFail("refines: no contract %s", r.Target)
+	}
+	vars := x.refineVars(s, fc, res)
+	env := x.specEnv(s, x.entryHeap, vars)
+	for _, c := range fc.Ensures {
+		if usesEvents(c.Expr) {
+			continue
+		}
+		x.emit(s, "refines", shortName(fc.Name)+"."+c.Label, r.Props, env.evalBool(substGhost(c.Expr, r.Map)), c)
+	}
+	// frame: what this method may change must be representation state reached from the receiver
+	if !x.spec.HasAssigns {
+		x.note("refinement of " + fc.Name + " by " + fnName(x.fn) + ": no assigns clause, the frame part of the refinement is not checked")
+		return
+	}
+	recv := ""
+	if x.fn.Signature.Recv() != nil && len(x.fn.Params) > 0 {
+		recv = x.fn.Params[0].Name()
+		if a := baselineParamName(fnName(x.fn), 0); a != "" {
+			recv = a
+		}
+	}
+	for _, a := range x.spec.Assigns {
+		t := strings.TrimSpace(a)
+		ok := strings.HasPrefix(t, "all ") || strings.HasPrefix(t, recv+".") || strings.HasPrefix(t, "*"+recv+".") || strings.HasPrefix(t, "this.") ||
+			strings.Contains(t, "("+recv+",") || strings.Contains(t, "("+recv+")")
+		goal := "true"
+		if !ok {
+			goal = "false"
+		}
+		x.emit(s, "refines", shortName(fc.Name)+".frame:"+strings.ReplaceAll(t, " ", ""), r.Props, goal, nil)
+	}
+}
+
+// checkRefinesPre: the interface contract's precondition (plus this object's invariant) implies
+// this method's own precondition, so a caller that only knows the interface may call it.
+func (x *Exec) checkRefinesPre(s0 *State) {
+	for _, r := range x.spec.Refines {
+		if x.prop != "" && !hasProp(r.Props, x.prop) {
+			continue
+		}
+		fc, ok := x.P.specs.Funcs[r.Target]
+		if !ok {
+			specFail("refines: no contract %s", r.Target)
+		}
+		s := s0.clone()
+		vars := x.refineVars(s, fc, nil)
+		env := x.specEnv(s, s.heap, vars)
+		for _, c := range fc.Requires {
+			s.assume(env.evalBool(substGhost(c.Expr, r.Map)))
+		}
+		for _, c := range x.spec.Requires {
+			if mentionsCall(c.Expr, "held") {
+				continue
+			}
+			if strings.HasSuffix(c.Label, "_no_overflow") {
+				x.note("refinement of " + fc.Name + ": precondition " + c.Label + " of " + fnName(x.fn) + " is an overflow assumption (A3), not implied by the interface contract")
+				continue
+			}
+			x.obls = append(x.obls, &Obligation{Name: fnName(x.fn) + "/refines_pre:" + shortName(fc.Name) + "." + c.Label, Func: fnName(x.fn), Kind: "refines_pre",
+				Label: shortName(fc.Name) + "." + c.Label, Props: r.Props, PC: append([]string(nil), s.pc...), Goal: env.evalBool(c.Expr), Clause: c, Inputs: x.inputs})
+		}
 	}
 }
 
